@@ -61,6 +61,21 @@ bool Executor::hasToLog(const ErrorMessage &msg)
     return false;
 }
 
+bool Executor::isSuppressedCriticalError(ErrorMessage &msg)
+{
+    if (!mSettings.safety || msg.severity == Severity::internal || !ErrorLogger::isCriticalErrorId(msg.id))
+        return false;
+
+    if (!mSuppressions.nomsg.isSuppressed(msg, {}))
+        return false;
+
+    // signal that there is this critical error but it is suppressed
+    if (mSuppressions.nomsg.isSuppressedExplicitly(SuppressionList::ErrorMessage::fromErrorMessage(msg, {}), true))
+        msg.severity = Severity::internal;
+
+    return true;
+}
+
 void Executor::reportStatus(std::size_t fileindex, std::size_t filecount, std::size_t sizedone, std::size_t sizetotal)
 {
     if (filecount > 1) {
